@@ -156,7 +156,7 @@ def idealPrefix (d : Nat) : List WinOp → Bytes → Bytes
   | .lz len dist :: r, H =>
     if 1 ≤ dist ∧ dist ≤ min H.length d then idealPrefix d r (H ++ lzCopy H dist len) else H
 
-/-- Ideal semantics with the memory limit: an op that produces at least one byte also needs
+/-- IdealWin semantics with the memory limit: an op that produces at least one byte also needs
 `min (new length) d ≤ m`.  Returns the history reached (at the end, or just before the first
 rejected op) and whether every op was accepted. -/
 def idealRunM (d m : Nat) : List WinOp → Bytes → Bytes × Bool
@@ -1542,103 +1542,103 @@ theorem Sink.after_out_rel {s0 s : Sink} {d : Nat} {H H' : Bytes} (hp : H <+: H'
 
 /-- The ideal window: the history as a plain list, a dictionary limit and a memory limit.
 Its sink effect is the closed form `Sink.after` (so it models perfect sinks only). -/
-structure Ideal where
+structure IdealWin where
   hist : Bytes := []
   dictSize : Nat
   memlimit : Nat
 
-namespace Ideal
+namespace IdealWin
 
-def lastOr (w : Ideal) (lit : UInt8) : Except Err UInt8 := .ok (w.hist.getLast?.getD lit)
+def lastOr (w : IdealWin) (lit : UInt8) : Except Err UInt8 := .ok (w.hist.getLast?.getD lit)
 
-def lastN (w : Ideal) (dist : Nat) : Except Err UInt8 :=
+def lastN (w : IdealWin) (dist : Nat) : Except Err UInt8 :=
   if dist ≤ w.dictSize ∧ dist ≤ w.hist.length then .ok (w.hist[w.hist.length - dist]?.getD 0)
   else .error .lzma
 
-def push (w : Ideal) (X : Bytes) : M Ideal := fun s =>
+def push (w : IdealWin) (X : Bytes) : M IdealWin := fun s =>
   (s.after w.dictSize w.hist (w.hist ++ X), .ok { w with hist := w.hist ++ X })
 
-def appendLiteral (w : Ideal) (b : UInt8) : M Ideal :=
+def appendLiteral (w : IdealWin) (b : UInt8) : M IdealWin :=
   if min (w.hist.length + 1) w.dictSize ≤ w.memlimit then w.push [b] else throwM .lzma
 
-def appendLz (w : Ideal) (len dist : Nat) : M Ideal :=
+def appendLz (w : IdealWin) (len dist : Nat) : M IdealWin :=
   if dist ≤ w.dictSize ∧ dist ≤ w.hist.length ∧
       (len = 0 ∨ min (w.hist.length + len) w.dictSize ≤ w.memlimit) then
     w.push (lzCopy w.hist dist len)
   else throwM .lzma
 
-instance : LzBuf Ideal where
+instance : LzBuf IdealWin where
   len w := w.hist.length
   lastOr := lastOr
   lastN := lastN
   appendLiteral := appendLiteral
   appendLz := appendLz
 
-end Ideal
+end IdealWin
 
 /-- the concrete window represents the ideal one -/
-def Sim (w : Circ) (i : Ideal) : Prop :=
+def WinSim (w : Circ) (i : IdealWin) : Prop :=
   CircInv w i.hist ∧ w.dictSize = i.dictSize ∧ w.memlimit = i.memlimit
 
 /-- same sink, same error, related windows -/
-def SimM (r1 : Sink × Except Err Circ) (r2 : Sink × Except Err Ideal) : Prop :=
+def WinSimM (r1 : Sink × Except Err Circ) (r2 : Sink × Except Err IdealWin) : Prop :=
   r1.1 = r2.1 ∧
     match r1.2, r2.2 with
-    | .ok w, .ok i => Sim w i
+    | .ok w, .ok i => WinSim w i
     | .error e1, .error e2 => e1 = e2
     | _, _ => False
 
-theorem Sim.len {w : Circ} {i : Ideal} (h : Sim w i) : LzBuf.len w = LzBuf.len i := h.1.len_eq
+theorem WinSim.len {w : Circ} {i : IdealWin} (h : WinSim w i) : LzBuf.len w = LzBuf.len i := h.1.len_eq
 
-theorem Sim.lastOr {w : Circ} {i : Ideal} (h : Sim w i) (b : UInt8) :
+theorem WinSim.lastOr {w : Circ} {i : IdealWin} (h : WinSim w i) (b : UInt8) :
     LzBuf.lastOr w b = LzBuf.lastOr i b := Circ.lastOr_spec b h.1
 
-theorem Sim.lastN {w : Circ} {i : Ideal} (h : Sim w i) {dist : Nat} (h1 : 1 ≤ dist) :
+theorem WinSim.lastN {w : Circ} {i : IdealWin} (h : WinSim w i) {dist : Nat} (h1 : 1 ≤ dist) :
     LzBuf.lastN w dist = LzBuf.lastN i dist := by
   show w.lastN dist = i.lastN dist
-  rw [Circ.lastN_spec h.1 h1, Ideal.lastN, ← h.2.1]
+  rw [Circ.lastN_spec h.1 h1, IdealWin.lastN, ← h.2.1]
   by_cases hg : dist ≤ w.dictSize ∧ dist ≤ i.hist.length
   · rw [dif_pos hg, if_pos hg, List.getElem?_eq_getElem (by omega)]; rfl
   · rw [dif_neg hg, if_neg hg]
 
-theorem Sim.appendLiteral {w : Circ} {i : Ideal} (h : Sim w i) (b : UInt8) {s : Sink}
+theorem WinSim.appendLiteral {w : Circ} {i : IdealWin} (h : WinSim w i) (b : UInt8) {s : Sink}
     (hs : s.Perfect) :
-    SimM (LzBuf.appendLiteral w b s) (LzBuf.appendLiteral i b s) ∧
+    WinSimM (LzBuf.appendLiteral w b s) (LzBuf.appendLiteral i b s) ∧
       (LzBuf.appendLiteral w b s).1.Perfect := by
-  show SimM (w.appendLiteral b s) (i.appendLiteral b s) ∧ (w.appendLiteral b s).1.Perfect
+  show WinSimM (w.appendLiteral b s) (i.appendLiteral b s) ∧ (w.appendLiteral b s).1.Perfect
   obtain ⟨hi, hd, hm⟩ := h
-  unfold Ideal.appendLiteral
+  unfold IdealWin.appendLiteral
   rw [← hd, ← hm]
   by_cases hg : min (i.hist.length + 1) w.dictSize ≤ w.memlimit
   · obtain ⟨w', e1, e2, e3, e4⟩ := Circ.appendLiteral_ok (s := s) b hi hs hg
     rw [if_pos hg, e1]
-    refine ⟨⟨by simp only [Ideal.push, hd], ?_⟩, Sink.after_perfect hs⟩
+    refine ⟨⟨by simp only [IdealWin.push, hd], ?_⟩, Sink.after_perfect hs⟩
     exact ⟨e2, by simp only; omega, by simp only; omega⟩
   · rw [if_neg hg, Circ.appendLiteral_fail s b hi hg]
     exact ⟨⟨rfl, rfl⟩, hs⟩
 
-theorem Sim.appendLz {w : Circ} {i : Ideal} (h : Sim w i) (len : Nat) {dist : Nat}
+theorem WinSim.appendLz {w : Circ} {i : IdealWin} (h : WinSim w i) (len : Nat) {dist : Nat}
     (h1 : 1 ≤ dist) {s : Sink} (hs : s.Perfect) :
-    SimM (LzBuf.appendLz w len dist s) (LzBuf.appendLz i len dist s) ∧
+    WinSimM (LzBuf.appendLz w len dist s) (LzBuf.appendLz i len dist s) ∧
       (LzBuf.appendLz w len dist s).1.Perfect := by
-  show SimM (w.appendLz len dist s) (i.appendLz len dist s) ∧ (w.appendLz len dist s).1.Perfect
+  show WinSimM (w.appendLz len dist s) (i.appendLz len dist s) ∧ (w.appendLz len dist s).1.Perfect
   obtain ⟨hi, hd, hm⟩ := h
   have hsp := Circ.appendLz_spec (s := s) len hi hs h1
-  unfold Ideal.appendLz
+  unfold IdealWin.appendLz
   rw [← hd, ← hm]
   by_cases hg : dist ≤ w.dictSize ∧ dist ≤ i.hist.length ∧
       (len = 0 ∨ min (i.hist.length + len) w.dictSize ≤ w.memlimit)
   · rw [if_pos hg] at hsp
     obtain ⟨w', e1, e2, e3, e4⟩ := hsp
     rw [if_pos hg, e1]
-    refine ⟨⟨by simp only [Ideal.push, hd], ?_⟩, Sink.after_perfect hs⟩
+    refine ⟨⟨by simp only [IdealWin.push, hd], ?_⟩, Sink.after_perfect hs⟩
     exact ⟨e2, by simp only; omega, by simp only; omega⟩
   · rw [if_neg hg] at hsp
     rw [if_neg hg, hsp]
     exact ⟨⟨rfl, rfl⟩, hs⟩
 
-theorem Sim.fromStream {d : Nat} (m : Nat) (hd : 0 < d) :
-    Sim (Circ.fromStream d m) { dictSize := d, memlimit := m } :=
+theorem WinSim.fromStream {d : Nat} (m : Nat) (hd : 0 < d) :
+    WinSim (Circ.fromStream d m) { dictSize := d, memlimit := m } :=
   ⟨Circ.fromStream_inv m hd, rfl, rfl⟩
 
 /-! ## `dist = 0` on the circular window (not issued by the decoder) -/
